@@ -305,7 +305,8 @@ def run(S):
     # (ii) every read of tab_spaces flows only into nest offsets / indent parameters
     readers = []
     for name, fn in core.fns.items():
-        if 'Config).0: usize' not in '\n'.join(fn.raw_lines):
+        body_text = '\n'.join(fn.raw_lines)
+        if 'Config).0: usize' not in body_text and not ('.0: usize)' in body_text and re.search(r'(^|[ (&])(config::)?Config\b', fn.header + body_text)):
             continue
         short = name.rsplit('::', 1)[-1]
         if short in ('clone', 'fmt', 'eq', 'hash', 'default', 'with_tab_spaces', 'new', 'ne', 'assert_fields_are_eq') and ('config.rs' in name or 'lib.rs' in name):
@@ -334,7 +335,14 @@ def run(S):
                             changed = True
         rec.obligations += 1
         bad = []
+        if 0 in carriers:
+            bad.append('returned from the function (the caller may decide anything by it)')
         for b, blk in fn.blocks.items():
+            for st in blk.stmts:
+                if st.kind == 'assign' and st.place.proj and st.rv.kind in ('use', 'cast') and st.rv.a.kind != 'const':
+                    sp = st.rv.a.place
+                    if sl.is_tab_read(sp) or (not sp.proj and sp.local in carriers):
+                        bad.append('stored into a field (%r)' % (st.place,))
             t = blk.term
             if t is None:
                 continue
@@ -488,6 +496,8 @@ CORPUS = [
     '#let v = a // c\n  + b\n', '#{\n  let v = aaa and // c\n    bbb\n}\n', '#let v = a + f(\n  1,\n) + (\n  2,\n)\n', '#f(a // c\n  + b)\n',
     '#let w = a.b // c\n  .c()\n', '$ f(a, // c\n  b) $\n', '#let g = (x /* c */, // d\n  y) => x\n', '#{\n  x = a // c\n    * b\n}\n',
     '$ [ a +\nb +\nc ] $\n', '$ f(x) = ( a\n+ b ) $\n', '$ { a\n  b } $\n', '$ (\n  a\n) $\n', '$ vec(\n  a,\n  b,\n) $\n', '$\n  a \\\n  b\n$\n',
+    '#a.bb.c(\n1,\n2)\n', '#{\n  aaaaaaaa.bbbbbbbb.cccc(\n    x,\n    y,\n  )\n}\n', '#let v = aaaa.bbbb.cccc(1, 2).dddd\n', '#f(aaaa.bbbb.cccc(\n  x,\n))\n',
+    '#{\n  let v = aaaaaa.bbbbbb.cccccc(\n    // c\n    x,\n  )\n}\n', '#aaaaaaaaaaaa.bbbbbbbbbbbb.cccccccc(\n  1,\n  2,\n)\n',
     '#let long = aaaaaaaaaaaaaaaaaaaaaaaaaaaaaa + bbbbbbbbbbbbbbbbbbbbbbbbbbbbbbbbbbbb + cccccccccccccccccccccccccccccccccccccc + dddddddddddddddddddddddddddddd\n',
 ]
 
@@ -520,4 +530,26 @@ def native_confirm(S):
                     if a.lstrip(' ') != b.lstrip(' ') or ib != ia * t:
                         return dict(api='Typstyle::format_content', source=src, tab=t, line_unit1=a, line_unitT=b,
                                     what='with tab_spaces=%d line %s is indented by %d blanks, but by %d with tab_spaces=1 (expected ratio %d) for %s' % (t, show(b), ib, ia, t, show(src)))
+    # finite widths: when the layout chosen for unit 1, re-indented by the unit t, still fits the width, no line needs wrapping for unit t
+    # either, and the output for unit t must be exactly that re-indented text
+    for src in CORPUS:
+        if any(ord(c) > 127 for c in src) or '/*' in src:
+            continue
+        for w in (12, 16, 20, 24, 30, 40, 60, 80):
+            r1 = S.driver.call('format', hexs(src), w, 1, 0)
+            if r1[0] != 'ok':
+                continue
+            base = unhexs(r1[1]).split('\n')
+            for t in (2, 3, 4, 6, 8):
+                scaled = [' ' * ((len(a) - len(a.lstrip(' '))) * t) + a.lstrip(' ') for a in base]
+                if max(len(x) for x in scaled) > w:
+                    continue
+                rt = S.driver.call('format', hexs(src), w, t, 0)
+                if rt[0] != 'ok':
+                    continue
+                got = unhexs(rt[1]).split('\n')
+                if got != scaled:
+                    return dict(api='Typstyle::format_content', source=src, tab=t, width=w,
+                                what='at width %d the layout for tab_spaces=1, re-indented by %d, fits every line, but tab_spaces=%d gives another layout for %s: %s instead of %s' % (
+                                    w, t, t, show(src), show('\n'.join(got)), show('\n'.join(scaled))))
     return None
